@@ -357,6 +357,7 @@ namespace Pistache
                 return stream;
 
             std::ostream os(&stream.buf_);
+            os.imbue(std::locale::classic());
             os << std::hex << size(val) << crlf;
             os << std::dec << val << crlf;
 
